@@ -877,7 +877,8 @@ class Prop:
                   "non-termination outside it (parse_spins); the messages one onMessage() call hands out are pairwise distinct objects "
                   "that still hold what they were delivered with when the call returns (delivered_messages_are_fresh, over an "
                   "explicit heap model under the extracted allocation site allocPerFrame; shared_object_is_overwritten is the "
-                  "witness for the other discipline). Constants, guards, "
+                  "witness for the other discipline); the example ProtobufCodec's encoder and decoder round-trip for every type name "
+                  "and payload within the size limit (ex_roundtrip). Constants, guards, "
                   "offsets and decision trees of the models are re-extracted from /repo on every run; the loops and slicing are "
                   "tied by the differential run; zlib's Adler-32 and protobuf's verdicts are environment")
     level_note = ("Trusted: Lean kernel (axioms propext, Classical.choice, Quot.sound only), vlib/extract.py + vlib/gen/codec.py, "
@@ -890,6 +891,12 @@ class Prop:
             "malformed generator); every segmentation (all 2^(n-1)) of streams up to 11 (quick) / 14 (thorough) bytes, "
             "byte-by-byte, every single cut at a mark (inside each length field, around tag and checksum, frame ends; "
             "HTTP: between CR and LF, around separators), all marks at once and random cut sets for longer ones; "
+            "all three codecs (RpcCodec, ProtobufCodecLite with several tags, the example ProtobufCodec of examples/protobuf/codec) "
+            "in both directions: the real encoders on message sizes 0, 1, 2, 100, 500, every 4th size from 960 to 1040, 1023, 1025, "
+            "~2 KiB, 4 KiB, 8 KiB, 64 KiB, 70000 (both sides of every growth of the encoder's Buffer) and random sizes, each frame "
+            "compared with the documented frame format, then decoded in arbitrary segmentations (round trip) and corrupted as above "
+            "(example codec also: adversarial nameLen with a recomputed checksum, unknown type names); the encoders and streams of "
+            "their frames again under ASan+UBSan in the quick tier; "
             "codec: deliveries that hold groups of 2 and of 3 whole frames, and two frames plus the beginning of a third (one "
             "onMessage() call decodes several frames; the harness keeps every MessagePtr and reports object identity and content after "
             "the call returned); HTTP: 1-4 requests per connection with reset() between them; "
@@ -902,6 +909,8 @@ class Prop:
         "reading of the models in Model/CodecSkelDecl.lean, Model/HttpSkelDecl.lean (theorem statement_order_tied)",
         "hand-written Model/Stream.lean, Model/Codec.lean, Model/Http.lean for the loops, slicing, Adler-32, the pointer walk of "
         "processRequestLine, std::map; tied by the differential run (harness/codec_drv.cc, harness/http_drv.cc vs the Lean drivers)",
+        "example codec: harness/codec_drv.cc walks the buffer by length fields and asks protobuf's registry / parser directly for the "
+        "verdicts the model is parameterised by (ProtobufCodec has no hook)",
         "protobuf's ParseFromArray / serialisation (verdicts recorded from the real calls), zlib's adler32 (cross-checked against "
         "the Lean Adler-32 on every generated frame), std::string, std::map, std::find, std::find_if, std::search, isspace",
     ]
